@@ -1,5 +1,5 @@
 #!/usr/bin/env python3
-"""usage: selftest/make_seed_briefs.py <round-tag e.g. r5>
+"""usage: selftest/make_seed_briefs.py <round-tag e.g. r5> [pairing shift]
 Creates ten scratch git worktrees of /repo under /tmp (seedwt_<tag>_<n>) and one brief per worktree (/tmp/seedbrief_<tag>_<n>.md) for sub-agents that
 seed realistic property-breaking changes.  The brief contains ONLY the property text and one-line summaries of the changes produced earlier (so
 that new ones differ in kind); nothing about the checks.  Remove the worktrees afterwards with `git -C /repo worktree remove --force <dir>`."""
@@ -7,7 +7,14 @@ import sys, glob
 TAG = sys.argv[1]
 import json, os, subprocess
 props={json.loads(l)['id']:json.loads(l) for l in open('/verif/properties.jsonl')}
-pairs=[('C01','C10'),('C02','C13'),('C03','C11'),('C04','C15'),('C05','C12'),('C06','C16'),('C07','C17'),('C08','C20'),('C09','C18'),('C14','C19')]
+ids=['C%02d'%i for i in range(1,21)]
+shift=int(sys.argv[2]) if len(sys.argv)>2 else 9      # second argument: how far apart the two properties of a brief are (varies the pairing per round)
+pairs=[]
+left=list(ids)
+while left:
+    a=left.pop(0)
+    b=left.pop((shift-1)%len(left)) if left else a
+    pairs.append((a,b))
 for n,(a,b) in enumerate(pairs,1):
     wt='/tmp/seedwt_%s_%d'%(TAG,n)
     if not os.path.isdir(wt):
